@@ -446,6 +446,86 @@ fn struct_iter(ast: &DeriveInput, ts: proc_macro2::TokenStream) -> Result<String
     Ok(format!("nth={}|next_back={}|size_hint={}|next={}|len={}|table={}", g("nth"), g("next_back"), g("size_hint"), g("next"), g("len"), g("table")))
 }
 
+// ---------------------------------------------------------------------------------------------------
+// structural summary of the generated Display / AsRefStr code: one entry per match arm, in order
+// ---------------------------------------------------------------------------------------------------
+fn pat_variant(ast: &DeriveInput, p: &syn::Pat) -> Result<(usize, Vec<(String, bool)>), String> {
+    // -> (variant index, [(binder, bound with `ref`)])
+    let binder = |q: &syn::Pat| -> Option<(String, bool)> { if let syn::Pat::Ident(i) = q { Some((i.ident.to_string(), i.by_ref.is_some())) } else { None } };
+    match p {
+        syn::Pat::Path(pp) => Ok((variant_index(ast, &pp.path.segments.last().ok_or("empty")?.ident).ok_or("unknown variant")?, vec![])),
+        syn::Pat::Ident(pi) => Ok((variant_index(ast, &pi.ident).ok_or("unknown variant")?, vec![])),
+        syn::Pat::TupleStruct(ts) => Ok((variant_index(ast, &ts.path.segments.last().ok_or("empty")?.ident).ok_or("unknown variant")?,
+                                        ts.elems.iter().filter_map(binder).collect())),
+        syn::Pat::Struct(st) => Ok((variant_index(ast, &st.path.segments.last().ok_or("empty")?.ident).ok_or("unknown variant")?,
+                                   st.fields.iter().filter_map(|f| binder(&f.pat)).collect())),
+        _ => Err("unsupported arm pattern".into()),
+    }
+}
+fn struct_match_arms(ast: &DeriveInput, ts: proc_macro2::TokenStream, trait_name: &str, fn_name: &str) -> Result<String, String> {
+    let f: syn::File = syn::parse2(ts).map_err(|e| format!("tokens do not parse: {}", e))?;
+    for it in &f.items {
+        if let syn::Item::Impl(im) = it {
+            let ok = im.trait_.as_ref().map(|(_, p, _)| p.segments.last().map(|s| s.ident == trait_name).unwrap_or(false)).unwrap_or(false);
+            if !ok { continue; }
+            for ii in &im.items {
+                if let syn::ImplItem::Fn(m) = ii {
+                    if m.sig.ident != fn_name { continue; }
+                    let mm = match m.block.stmts.as_slice() { [syn::Stmt::Expr(syn::Expr::Match(mm), None)] => mm, _ => return Err("body is not a single match".into()) };
+                    let mut out: Vec<String> = Vec::new();
+                    for a in &mm.arms {
+                        if let syn::Pat::Wild(_) = &a.pat {
+                            out.push(if matches!(&*a.body, syn::Expr::Macro(mc) if mc.mac.path.is_ident("panic")) { "W".to_string() } else { return Err("wildcard arm is not a panic".into()) });
+                            continue;
+                        }
+                        let (vi, binders) = pat_variant(ast, &a.pat)?;
+                        // body: a string literal | Display::fmt(x, f) | AsRef::<str>::as_ref(x)
+                        let arg = match &*a.body {
+                            syn::Expr::Lit(_) => a.body.as_ref().clone(),
+                            syn::Expr::Call(c) if !c.args.is_empty() => c.args[0].clone(),
+                            _ => return Err("unsupported arm body".into()),
+                        };
+                        let entry = match &arg {
+                            e if lit_str_of(e).is_some() => format!("S:{}", hex(&lit_str_of(e).unwrap())),
+                            syn::Expr::Path(p) => {
+                                let name = p.path.get_ident().ok_or("inner value is not a local")?.to_string();
+                                let by_ref = binders.iter().find(|(b, _)| *b == name).map(|(_, r)| *r).ok_or("inner value is not bound by the pattern")?;
+                                format!("I:{}:{}", name, if by_ref { "r" } else { "v" })
+                            }
+                            syn::Expr::Reference(r) => match &*r.expr {
+                                syn::Expr::Macro(mc) if mc.mac.path.is_ident("format_args") => {
+                                    let args = syn::parse::Parser::parse2(syn::punctuated::Punctuated::<syn::Expr, syn::Token![,]>::parse_terminated, mc.mac.tokens.clone())
+                                        .map_err(|e| format!("format_args! arguments: {}", e))?;
+                                    let mut itx = args.iter();
+                                    let lit = itx.next().and_then(lit_str_of).ok_or("format_args! without a literal")?;
+                                    let rest: Vec<&syn::Expr> = itx.collect();
+                                    if rest.iter().all(|e| matches!(e, syn::Expr::Assign(_))) && !rest.is_empty() {
+                                        let names: Result<Vec<String>, String> = rest.iter().map(|e| match e {
+                                            syn::Expr::Assign(asg) => match (&*asg.left, &*asg.right) {
+                                                (syn::Expr::Path(l), syn::Expr::Path(r2)) if l.path.get_ident().is_some() && l.path.get_ident() == r2.path.get_ident() => Ok(l.path.get_ident().unwrap().to_string()),
+                                                _ => Err("named argument is not `x = x`".to_string()) },
+                                            _ => Err("?".to_string()) }).collect();
+                                        format!("AN:{}:{}", hex(&lit), names?.join(","))
+                                    } else {
+                                        let ok = rest.iter().enumerate().all(|(i, e)| matches!(e, syn::Expr::Path(p) if p.path.is_ident(&format!("field{}", i))));
+                                        if !ok { return Err("positional arguments are not field0, field1, ..".into()); }
+                                        format!("AP:{}:{}", hex(&lit), rest.len())
+                                    }
+                                }
+                                _ => return Err("unsupported reference in arm body".into()),
+                            },
+                            _ => return Err("unsupported arm body argument".into()),
+                        };
+                        out.push(format!("v{}:{}", vi, entry));
+                    }
+                    return Ok(format!("[{}]", out.join(";")));
+                }
+            }
+        }
+    }
+    Err("impl not found".into())
+}
+
 fn fnv(h: &mut u64, s: &str) { for b in s.bytes() { *h ^= b as u64; *h = h.wrapping_mul(0x100000001b3); } *h ^= 10; *h = h.wrapping_mul(0x100000001b3); }
 
 fn valid_ident(s: &str) -> bool {
@@ -510,6 +590,11 @@ fn main() {
                             Ok(Ok(ts)) => match derive.as_str() {
                                 "EnumString" => match std::panic::catch_unwind(std::panic::AssertUnwindSafe(|| struct_from_str(&ast, ts))) {
                                     Ok(Ok(s)) => s, Ok(Err(m)) => format!("unparsed:{}", m), Err(_) => "unparsed:panic in the token reader".to_string() },
+                                "Display" | "AsRefStr" => {
+                                    let (tr, fnn) = if derive == "Display" { ("Display", "fmt") } else { ("AsRef", "as_ref") };
+                                    match std::panic::catch_unwind(std::panic::AssertUnwindSafe(|| struct_match_arms(&ast, ts, tr, fnn))) {
+                                        Ok(Ok(s)) => s, Ok(Err(m)) => format!("unparsed:{}", m), Err(_) => "unparsed:panic in the token reader".to_string() }
+                                }
                                 "EnumIter" => match std::panic::catch_unwind(std::panic::AssertUnwindSafe(|| struct_iter(&ast, ts))) {
                                     Ok(Ok(s)) => s, Ok(Err(m)) => format!("unparsed:{}", m), Err(_) => "unparsed:panic in the token reader".to_string() },
                                 _ => "unparsed:no structural reader for this derive".to_string(),
